@@ -156,6 +156,58 @@ func checkC13(p *Program, r *Report) {
 		r.Undecided("R13.1", key+":substep-loop", p.Pos(k.Pos()), "no sub-step loop `for T > 0 { … T -= Δt }` found")
 		return
 	}
+	// the bookkeeping of an accepted sub-step may be delegated to an object (`totals.add(avgOutflow, …, subtimestep)`
+	// accumulating into its own fields, `totals.report(…)` writing the outputs): the rules below read accumulators
+	// as SSA values of the kernel and do not follow such an object
+	for _, sl := range sls {
+		dtWeb := phiWeb(sl.dt)
+		for b := range sl.loop.Blocks {
+			for _, ins := range b.Instrs {
+				c, ok := ins.(ssa.CallInstruction)
+				if !ok || c.Common().IsInvoke() {
+					continue
+				}
+				h := c.Common().StaticCallee()
+				if h == nil || !InModule(h) || h.Blocks == nil || h.Signature.Recv() == nil || len(c.Common().Args) == 0 {
+					continue
+				}
+				if a, isAlloc := stripConv(c.Common().Args[0]).(*ssa.Alloc); !isAlloc || a.Parent() != k {
+					continue
+				}
+				takesDt := false
+				for _, arg := range c.Common().Args[1:] {
+					if dtWeb[arg] {
+						takesDt = true
+					}
+				}
+				accumulates := false
+				eachInstr(h, func(_ *ssa.BasicBlock, _ int, hi ssa.Instruction) {
+					st, ok := hi.(*ssa.Store)
+					if !ok {
+						return
+					}
+					fa, ok := st.Addr.(*ssa.FieldAddr)
+					if !ok || origin1(fa.X) != ssa.Value(h.Params[0]) {
+						return
+					}
+					if add, ok := st.Val.(*ssa.BinOp); ok && add.Op == token.ADD {
+						for _, op := range []ssa.Value{add.X, add.Y} {
+							if ld, ok := op.(*ssa.UnOp); ok && ld.Op == token.MUL {
+								if f2, ok := ld.X.(*ssa.FieldAddr); ok && f2.Field == fa.Field && origin1(f2.X) == ssa.Value(h.Params[0]) {
+									accumulates = true
+								}
+							}
+						}
+					}
+				})
+				if takesDt && accumulates {
+					for _, rule := range []string{"R13.1", "R13.3", "R13.4", "R13.5", "R13.7"} {
+						r.Unsupported(rule, fmt.Sprintf("%s: the accepted sub-step is booked by %s on a local object (accumulators are fields advanced by a method)", key, h.Name()))
+					}
+				}
+			}
+		}
+	}
 	nAcc := 0
 	for _, sl := range sls {
 		dtWeb := phiWeb(sl.dt)
